@@ -427,14 +427,8 @@ func resolveRoles(w *World) *Roles {
 	if ro.CancelInt == nil {
 		ro.fail("internal cancel function not found")
 	}
-	// markAsCanceled: method of *PipelineJob storing Canceled = true
-	for _, fn := range funcs {
-		if recv := fn.Signature.Recv(); recv != nil && namedOf(recv.Type()) != nil && namedOf(recv.Type()).Obj() == jobT.Obj() {
-			if len(ro.storesTo(fn, "PipelineJob.Canceled", func(s *ssa.Store) bool { return isBoolConst(s.Val, true) })) > 0 {
-				ro.MarkCanceled = fn
-			}
-		}
-	}
+	// (a method of the job that stores Canceled = true is an ordinary helper: it is spliced into the
+	// operations that call it and its store is judged there; ro.MarkCanceled stays nil)
 	// shutdown: stores isShuttingDown = true
 	for _, fn := range funcs {
 		if len(ro.storesTo(fn, "PipelineRunner.isShuttingDown", func(s *ssa.Store) bool { return isBoolConst(s.Val, true) })) > 0 {
